@@ -107,6 +107,13 @@ impl TryFrom<&AST> for GenericFunction {
                         has_default = arg.has_default;
                     }
 
+                    for (i, arg) in args.iter().enumerate() {
+                        if args[..i].iter().any(|earlier| earlier.name == arg.name) {
+                            let msg = format!("Duplicate argument '{}'", arg.name);
+                            return Err(vec![TypeErr::new(arg.pos, &msg)]);
+                        }
+                    }
+
                     args
                 },
                 ret_ty: match ret_ty {
